@@ -63,7 +63,7 @@ SURR = ['"\\ud800"', '"\\udc00"', '"\\ud800a"', '"\\udd1e\\ud834"', '"\ud800"', 
 REVIVE = [
     '1', '"s"', 'null', '[]', '{}', '[1,"x",null]', '{"a":1,"b":2}', '{"b":1,"a":2}', '{"a":1,"b":2,"c":3}', '{"c":"x","a":2,"b":[1,2]}',
     '[[1,2],[3]]', '{"a":{"a":1,"b":"y"},"b":[1,{"a":2}]}', '[{"a":1,"b":2},"a"]', '{"a":[1,2,3]}', '[1,2,3]', '{"b":{"a":"s"}}', '{"a":1,"a":2}', '["a",["b",["c"]]]',
-    '{"a":"x","b":"y","c":"z","d":"w"}', '{"0":1,"1":2}',
+    '{"a":"x","b":"y","c":"z","d":"w"}', '{"0":1,"1":2}', '[1,]', '{"a":1,}', '',
 ]
 # alphabet of the mutations: { } [ ] , : " \ 0 1 - + . e E u t n a space TAB ' / U+0001
 ALPHA = '{}[],:"\\01-+.eEutna \t\'/\x01'
@@ -85,6 +85,7 @@ seq("ExtraHeavyTexts", [s for s in EXTRA if heavy(s)])
 seq("SurrTexts", SURR)
 seq("ReviveTexts", REVIVE)
 out.append("MutAlphabet == %s" % tup(ALPHA))
+out.append("S_iso_epoch == %s" % tup("1970-01-01T00:00:00.000Z"))
 out.append("====")
 open(sys.argv[1] if len(sys.argv) > 1 else "C11Str.tla", "w").write("\n".join(out) + "\n")
 print(len(BASE), len(BASE_MORE), len(EXTRA), len(SURR), len(REVIVE), len(ALPHA), sum(len(s) for s in BASE), sum(len(s) for s in BASE_MORE))
